@@ -6,26 +6,10 @@ Local Open Scope string_scope.
    TypeError -> groups are formed on str(x)): ONE group labelled 1 that also contains the row whose
    key is '1'.  The guard repr_inj_on of C13_fallback_exact_when_repr_separates is necessary. *)
 Theorem C13_str_fallback_refuted :
-  exists rows, gres_same (M_frame_group_api 0 (Some (KCell 0)) false true true true 1 rows)
+  exists rows, gres_same (M_frame_group_api 0 (Some (KCell 0)) false true true true rows)
                          (S_frame_group_api 0 (Some (KCell 0)) rows) = false.
 Proof. exists [(VInt 0, [VInt 1]); (VInt 1, [VStr "1"]); (VInt 2, [VInt 1])]. vm_compute. reflexivity. Qed.
 Print Assumptions C13_str_fallback_refuted.
-
-(* finding C13-axis1-one-row-list-key: f.iter_group_items([row_label], axis=1) raises ValueError
-   under NumPy 2, the property demands the groups *)
-Theorem C13_axis1_one_row_list_key_refuted :
-  exists rows g, M_frame_group_api 1 (Some (KCells [0%nat])) true true true false 1 rows = Err "ValueError" /\
-                 S_frame_group_api 1 (Some (KCells [0%nat])) rows = Ok g.
-Proof. exists [(VStr "a", [VInt 1]); (VStr "b", [VInt 1])]. eexists. split; vm_compute; reflexivity. Qed.
-Print Assumptions C13_axis1_one_row_list_key_refuted.
-
-(* finding C13-frame-labels-multi-depth-apply: Frame.iter_group_labels([d0, d1]).apply(func) raises
-   TypeError (ndarray group keys are unhashable), the property demands one labelled result per group *)
-Theorem C13_frame_labels_multi_depth_apply_refuted :
-  exists rows r, M_apply_api true rows (M_unique_api false (KDepths [0%nat; 1%nat]) rows) = Err "TypeError" /\
-                 S_apply_api rows (S_group_api (KDepths [0%nat; 1%nat]) rows) = Ok r.
-Proof. exists [(VTup [VStr "a"; VInt 1], [VInt 5])]. eexists. split; vm_compute; reflexivity. Qed.
-Print Assumptions C13_frame_labels_multi_depth_apply_refuted.
 
 (* the [1:] trick of the sort path is correct only on sorted keys (dependence on the stable sort):
    on [1;2;1] the slicing puts a row with key 2 into a group labelled 1 *)
@@ -36,13 +20,3 @@ Proof.
   intro H. inversion H as [|? ? _ H2]. inversion H2 as [|? ? H3 _]. discriminate H3.
 Qed.
 Print Assumptions C13_transitions_need_sorted_refuted.
-
-
-(* finding C13-axis1-multi-key-object: two or more key rows on axis 1 whose common dtype is object
-   (here a bool and an int column): the string branch indexes the wrong axis when it restores the
-   group labels; the labels are exchanged between the two groups *)
-Theorem C13_axis1_multi_key_object_refuted :
-  exists rows, gres_same (M_frame_group_api 1 (Some (KCells [1%nat; 2%nat])) true true true true 2 rows)
-                         (S_frame_group_api 1 (Some (KCells [1%nat; 2%nat])) rows) = false.
-Proof. exists [(VStr "c0", [VBool true; VBool false; VBool true]); (VStr "c1", [VInt 9; VInt 9; VInt 9])]. vm_compute. reflexivity. Qed.
-Print Assumptions C13_axis1_multi_key_object_refuted.
